@@ -2,7 +2,7 @@ SPECIFICATION PairSpec
 CONSTANTS
   DF = 3
   D = 3
-  Ids <- Ids3_4
+  Ids <- Ids3_3
   IdPath <- U3
   THs = {1, 2}
   LGs = {1}
